@@ -251,12 +251,26 @@ func (e *seEval) val(fr *seFrame, v ssa.Value) seVal {
 	case *ssa.Global:
 		o := e.globals[x]
 		if o == nil {
+			// a package variable of a struct type of the module is an object with fields, as a local one is
+			if et := x.Type().Underlying().(*types.Pointer).Elem(); inModPkg(x.Pkg) && namedOf(et) != "BitSet" {
+				if st, isSt := et.Underlying().(*types.Struct); isSt {
+					o = e.newObj("struct", st.NumFields(), et)
+					for i := range o.vals {
+						o.vals[i] = e.zero(st.Field(i).Type())
+					}
+					e.globals[x] = o
+					return seVal{k: sePtr, obj: o, idx: -1}
+				}
+			}
 			o = e.newObj("cell", 1, x.Type())
 			o.vals[0] = seUnk
 			if inModPkg(x.Pkg) {
 				o.vals[0] = e.zero(x.Type().Underlying().(*types.Pointer).Elem())
 			}
 			e.globals[x] = o
+		}
+		if o.kind == "struct" {
+			return seVal{k: sePtr, obj: o, idx: -1}
 		}
 		return seVal{k: sePtr, obj: o, idx: 0}
 	}
@@ -1033,6 +1047,21 @@ func seTables(c *Ctx) map[types.Object]interface{} {
 			if g.Pkg == nil || !inModPkg(g.Pkg) || g.Object() == nil {
 				continue
 			}
+			if o.kind == "struct" {
+				// not a table itself; the tables its fields hold are kept by (variable, field)
+				if st, ok := g.Type().Underlying().(*types.Pointer).Elem().Underlying().(*types.Struct); ok && !o.unknown {
+					for i := 0; i < st.NumFields() && i < len(o.vals); i++ {
+						ft := st.Field(i).Type()
+						if pt, isP := ft.Underlying().(*types.Pointer); isP {
+							ft = pt.Elem()
+						}
+						if tv := e.toTable(o.vals[i], ft); tv != nil {
+							seFieldTabs(c)[fmt.Sprintf("%s.%d", g.String(), i)] = tv
+						}
+					}
+				}
+				continue
+			}
 			v := o.vals[0]
 			if o.unknown {
 				v = seUnk
@@ -1432,4 +1461,50 @@ func predDenotationSSA(c *Ctx, f *ssa.Function, p *tvPES, depth int) (iset, erro
 		}
 	}
 	return result.clip(domMax), nil
+}
+
+// seFieldTabs: tables held in fields of struct-typed package variables, keyed "<global>.<field index>" (filled by
+// seTables).
+func seFieldTabs(c *Ctx) map[string]interface{} {
+	return c.Memo("seFieldTabs", func() interface{} { return map[string]interface{}{} }).(map[string]interface{})
+}
+
+// curCtx: the analysis context of the rule that is running (set by the rule runner), for helpers without a context
+// parameter.
+var curCtx *Ctx
+
+// digitTableByContent: a table read from a field of a struct-typed package variable is named after the digit table
+// of the same content ({0-9}, {0-7}, hex digits), if it is one.
+func digitTableByContent(v ssa.Value) (string, bool) {
+	if curCtx == nil {
+		return "", false
+	}
+	ld, ok := v.(*ssa.UnOp)
+	if !ok || ld.Op != token.MUL {
+		return "", false
+	}
+	fa, ok := ld.X.(*ssa.FieldAddr)
+	if !ok {
+		return "", false
+	}
+	g, ok := fa.X.(*ssa.Global)
+	if !ok {
+		return "", false
+	}
+	seTables(curCtx)
+	tv, ok := seFieldTabs(curCtx)[fmt.Sprintf("%s.%d", g.String(), fa.Field)].(*tvBitset)
+	if !ok {
+		return "", false
+	}
+	got := tv.iset()
+	hex := isetRange('0', '9').union(isetRange('A', 'F')).union(isetRange('a', 'f'))
+	switch {
+	case got.equal(isetRange('0', '9')):
+		return "ASCIIDigit", true
+	case got.equal(isetRange('0', '7')):
+		return "asciiOctalDigit", true
+	case got.equal(hex):
+		return "ASCIIHexDigit", true
+	}
+	return "", false
 }
